@@ -29,6 +29,7 @@ PROPS["C19"] = dict(pkg="c19", shards=16, level="exploration",
     assumptions=["10 identical runs make an undetected 2-way map-order coin flip < 0.2%; documents with >=3 keys make it negligible"])
 
 PROPS["C02"] = dict(pkg="c02", shards=16, level="exploration",
+    fuzz=[{"target": "FuzzDenote", "seconds": 60}],
     technique="property-based testing (rapid) + exhaustive scalar boundary battery; oracle = independent reference interpreter of the schema description (accept/reject and denoted value), cross-checked on Unserialize, Validate and Serialize",
     level_text="Exploration: an enumerated battery (all absent/present bound combinations x boundary values x every Go representation; exhaustive for that grid) plus generated nested list/map/any/enum schemas with valid-by-construction, one-place-perturbed and decoder-domain inputs, all judged in both directions against the reference interpreter.",
     level_note="Trusts harness/model as the reading of the statement and of the fixed lenient conversions (strconv syntax for numeric strings, %f for float->string, the 14 boolean words, the reference unit parser); inputs whose denotation is not unique (colliding map keys, ambiguous unit sentences) are counted as unspecified; panics on rejected inputs are left to C04.",
